@@ -11,6 +11,10 @@ Oracle: specs/Legacy/LegacyView.tla (View(fn, mode, cap, msg)).
      records everything as ndjson.
   3. TLC (LegacyTrace.tla) validates every recorded line against View; unexplained lines are
      printed with labelled reasons = violation signatures.
+  4. Allocation-failure dimension (checks/legacy_oom.py, also called by C14): message family from
+     LegacyOomGen.tla, every planned call repeated with exactly the n-th allocation of the call failing
+     for every n, outcomes decided by LegacyTrace!OomLabels (error and nothing returned, or exactly
+     View; nothing left allocated); signatures c18.oom.<parser>.<what>.
 Python only moves data between the three (format conversion, sharding, equality of labels).
 """
 import concurrent.futures
@@ -85,6 +89,8 @@ def vector_text(vid, vec, mut_calls=None, trunc=1, nflips=0):
         lines.append("C %s %s %d" % (c["fn"], c["mode"], c["cap"]))
     for fn, mode, cap in (mut_calls or []):
         lines.append("M %s %s %d %d %d" % (fn, mode, cap, trunc, nflips))
+    for c in vec.get("oom", []):          # allocation-failure sweeps planned by LegacyOomGen.tla
+        lines.append("O %s %s %d" % (c["fn"], c["mode"], c["cap"]))
     lines.append("E")
     return "\n".join(lines) + "\n"
 
@@ -152,17 +158,18 @@ def add_src(raw_path, trace_path, srcs, crash_sig=None, append=False):
     the unmutated vector (by id) and the sanitizer report kind to a crash event."""
     n_lines = n_calls = n_mut = 0
     crashed = None
-    prefix = re.compile(r'^\{"e":"msg","id":(\d+),"mut":"none",')
+    prefix = re.compile(r'^\{"e":"msg","id":(\d+),"mut":"(?:none|oom)",')
     with open(raw_path) as fi, open(trace_path, "a" if append else "w") as fo:
         for line in fi:
             if not line.endswith("}\n"):
                 break                      # harness died (sanitizer abort) in the middle of a line
             if line.startswith('{"e":"crash"'):
-                crashed = json.loads(line)["id"]
-                line = json.dumps({"e": "crash", "id": crashed, "sig": crash_sig or "crash.unknown"}) + "\n"
+                cj = json.loads(line)           # inside an allocation-failure sweep: also "fn" and "oom"
+                crashed = cj["id"]
+                line = json.dumps(dict(cj, sig=crash_sig or "crash.unknown")) + "\n"
             n_lines += 1
             n_calls += line.count('{"fn":')
-            if '"mut":"none"' not in line[:60] and line.startswith('{"e":"msg"'):
+            if '"mut":"none"' not in line[:60] and '"mut":"oom"' not in line[:60] and line.startswith('{"e":"msg"'):
                 n_mut += 1
             mm = prefix.match(line)
             if mm and int(mm.group(1)) in srcs:
@@ -209,6 +216,7 @@ class Campaign:
         self.calls = 0
         self.mutated = 0
         self.sanitizer_reports = {}
+        self.sigmap = lambda s: s          # label -> violation signature (legacy_oom in C14: "c14.legacy." + ...)
         self.exit_reports = set()
         self.devs = []         # (shard trace path, dev object)
         self.coverage = {}
@@ -283,7 +291,7 @@ class Campaign:
                 if crashed is None and sig not in self.exit_reports:
                     # killed outside a vector (e.g. leak report at exit): no crash event in the trace
                     self.exit_reports.add(sig)
-                    ctx.violation("sanitizer." + sig, "sanitizer report at exit of the harness:\n%s" % text)
+                    ctx.violation(self.sigmap("sanitizer." + sig), "sanitizer report at exit of the harness:\n%s" % text)
             # distinct / non-trivial count (rule in run())
             with open(tr) as f:
                 for line in f:
@@ -299,7 +307,12 @@ class Campaign:
         return self
 
 
-def report_deviations(ctx, camp, confirm_exe):
+def oom_sig(label):
+    """Signature of a label of the allocation-failure rule (LegacyTrace!OomLabels) in this check."""
+    return "c18." + label if label.startswith("oom.") else label
+
+
+def report_deviations(ctx, camp, confirm_exe, sigmap=oom_sig):
     """Map the deviations printed by LegacyTrace to violations (one per distinct signature)."""
     by_sig = {}
     for tr, d in camp.devs:
@@ -315,7 +328,8 @@ def report_deviations(ctx, camp, confirm_exe):
             raise vlib.MachineryError("%s at %s line %s: %s" % (sig, tr, d.get("line"), json.dumps(d)[:3000]))
 
     def is_known(sig):
-        return any(k["property"] == ctx.pid and re.search(k["signature"], sig) for k in ctx.kf.get("known", []))
+        return any(k["property"] == ctx.pid and re.search(k["signature"], sigmap(sig))
+                   for k in ctx.kf.get("known", []))
 
     # a new deviation is reported only if it reproduces on a re-run of its vector alone (one batch)
     new = [s for s in sorted(by_sig) if not is_known(s) and camp.texts.get(by_sig[s]["first"][1].get("id", -1))]
@@ -332,13 +346,15 @@ def report_deviations(ctx, camp, confirm_exe):
         vid = d.get("id", -1)
         detail = [x for x in d.get("detail", []) if sig in x.get("labels", [])]
         text = "%s: %d deviating line(s); first: vector %s line %s of %s\n%s" % (
-            sig, by_sig[sig]["n"], vid, d.get("line"), tr, json.dumps(detail[:1], indent=1)[:2500])
-        if sig in camp.sanitizer_reports:
-            text += "\n" + camp.sanitizer_reports[sig]
-        replay = json.dumps({"signature": sig, "vector": camp.texts.get(vid, ""), "seed": ctx.seed,
+            sigmap(sig), by_sig[sig]["n"], vid, d.get("line"), tr, json.dumps(detail[:1], indent=1)[:2500])
+        for k in sorted(camp.sanitizer_reports):
+            if sig.endswith(k):            # "sanitizer.<kind>.<function>" or "oom.<fn>.sanitizer.<kind>.<function>"
+                text += "\n" + camp.sanitizer_reports[k]
+                break
+        replay = json.dumps({"signature": sigmap(sig), "vector": camp.texts.get(vid, ""), "seed": ctx.seed,
                              "detail": detail[:1]}, indent=1)
-        ctx.violation(sig, text, replay_content=replay)
-    return {s: v["n"] for s, v in by_sig.items()}
+        ctx.violation(sigmap(sig), text, replay_content=replay)
+    return {sigmap(s): v["n"] for s, v in by_sig.items()}
 
 
 def replay_vector(ctx, exe, vec_text, srcs, tag, seed=None):
@@ -437,7 +453,8 @@ def run(ctx):
         labels = replay_vector(ctx, exe, rp["vector"], {}, "replay", seed=rp.get("seed"))
         ctx.log("replay %s -> %s" % (ctx.replay, sorted(labels)))
         for lab in sorted(labels):
-            ctx.violation(lab, "replay of %s reproduces %s" % (ctx.replay, lab), replay_path=ctx.replay)
+            ctx.violation(oom_sig(lab), "replay of %s reproduces %s" % (ctx.replay, oom_sig(lab)),
+                          replay_path=ctx.replay)
         ctx.cov["traces_validated_against_impl"] = 1
         return
 
@@ -536,4 +553,13 @@ def run(ctx):
         "malformed-message statuses = {EBADRESP, EBADNAME, EFORMERR} (the record parser's rejection codes passed through)",
         "allocation balance is measured with a counting allocator installed via ares_library_init_mem; "
         "LeakSanitizer runs once at the end of each harness process",
+        "allocation-failure dimension: only allocation requests made inside the ares_parse_*_reply call are counted "
+        "and failed (message construction, the reference ares_dns_parse and the free functions are harness plumbing)",
     ]
+
+    # 5. allocation-failure dimension (checks/legacy_oom.py): every legacy entry point x the message family of
+    #    LegacyOomGen.tla x every allocation index of the call, decided by LegacyTrace!OomLabels
+    import legacy_oom
+    legacy_oom.run(ctx, exe, oom_sig)
+    ctx.cov["rule"] += ("; allocation-failure dimension: one fault run per (message, planned call, allocation index n of "
+                        "the call), non-trivial = the n-th allocation request was made and failed")
